@@ -1429,6 +1429,11 @@ pub fn gen_stream(master: u64, run: u64, prop: Prop) -> GenOut {
     let cfg = draw_cfg(prop, &mut cfg_rng);
     let mut st = Station::new();
     let mut items = gen_items(&cfg, &mut st, &mut wl);
+    for it in items.iter_mut() {
+        if it.frame && !matches!(ref_accept(&it.bytes), Accept::Accept(l) if l + 6 == it.bytes.len()) {
+            it.frame = false; // never a C04 target, never "intact"
+        }
+    }
     let mut faults = Vec::new();
     apply_faults(&cfg, &mut items, &mut fr, &mut faults);
     // epochs must be non-decreasing along the stream for the line model
@@ -1440,10 +1445,14 @@ pub fn gen_stream(master: u64, run: u64, prop: Prop) -> GenOut {
         e = it.epoch;
     }
     let (stream, segs, epochs, c04) = concat_items(&items);
-    // sanity of ground truth: intact segments are accepted by the reference
-    for s in &segs {
-        if s.intact {
-            debug_assert!(matches!(ref_accept(&stream[s.start..s.start + s.len]), Accept::Accept(l) if l + 6 == s.len));
+    // ground truth must not depend on the encoder being right: a segment counts as an intact
+    // frame only if the REFERENCE accepts exactly its bytes (an encoder that emits something else
+    // is a matter for the encoder properties; here its output is then just bytes on the line)
+    let mut segs = segs;
+    for s in segs.iter_mut() {
+        if s.intact && !matches!(ref_accept(&stream[s.start..s.start + s.len]), Accept::Accept(l) if l + 6 == s.len) {
+            s.intact = false;
+            s.label = format!("{}+not_a_valid_frame", s.label);
         }
     }
     let _ = crc24q;
